@@ -276,7 +276,7 @@ impl<'a> Builder<'a> {
 
     fn route_of_comb(&mut self, tap: u32, comb: &Combine, left: bool) {
         let kind = match comb {
-            Combine::Merge | Combine::Zip => RouteKind::Forward,
+            Combine::Merge | Combine::Zip | Combine::ZipCount => RouteKind::Forward,
             Combine::Join(_, JoinAlgo::BcHash | JoinAlgo::BcSortMerge, _) => {
                 if left {
                     RouteKind::Forward
@@ -294,6 +294,7 @@ impl<'a> Builder<'a> {
         match *comb {
             Combine::Merge => erase(l.merge(r)),
             Combine::Zip => erase(l.zip(r).map(|(a, b)| rec_of(mix_pair(Some(a.v), Some(b.v))))),
+            Combine::ZipCount => erase(l.zip(r).map(|_| rec_of(1))),
             Combine::Join(kind, algo, k) => {
                 let k = k.max(1);
                 let k1 = move |r: &Rec| r.v.rem_euclid(k);
